@@ -272,8 +272,20 @@ func genC10Observe(r *rand.Rand, n int, tier string) []string {
 			}
 			head = gApp("p", args...)
 		}
+		wide := r.Intn(12) == 0
+		if wide {
+			// a clause with 60..130 distinct variables, several of them repeated (also beyond offset 64)
+			n := 60 + r.Intn(71)
+			vs := make([]*gt, n)
+			for j := range vs {
+				vs[j] = gVar(j)
+			}
+			k1, k2 := r.Intn(n), n-1-r.Intn(8)
+			head = gApp("p", gApp("f", vs...), gApp("g", gVar(k1), gVar(k2)), gVar(k2))
+			g.nvars = n
+		}
 		clause := head
-		if r.Intn(4) > 0 {
+		if r.Intn(4) > 0 && !wide {
 			m := 1 + r.Intn(3)
 			gs := make([]*gt, m)
 			for j := range gs {
@@ -292,7 +304,7 @@ func genC10Observe(r *rand.Rand, n int, tier string) []string {
 			clause = gApp(":-", head, body)
 		}
 		var binds []string
-		for v := 0; v < g.nvars; v++ {
+		for v := 0; v < g.nvars && !wide; v++ {
 			if r.Intn(3) == 0 {
 				g2 := &termGen{r: r, nvars: g.nvars}
 				t := g2.term(1)
